@@ -6,7 +6,8 @@ import JxlModel.Model.Blend
 ```
 comp W H CC NEC {AA}*NEC {BITS}*(1+NEC) ANIM N
   { frame TY HAVECROP X0 Y0 W H  MODE ALPHA CLAMP SRC {MODE ALPHA CLAMP SRC}*NEC
-          DUR ISLAST SAVEREF SBCT  NCH { w h data*(w*h) }*NCH }*N
+          DUR ISLAST SAVEREF SBCT  [patches NP { REF X0 Y0 W H NT { X Y {MODE ALPHA CLAMP}*(1+NEC) }*NT }*NP]
+          NCH { w h data*(w*h) }*NCH }*N
 ```
 `AA`: -1 not an alpha channel, 0 straight, 1 premultiplied. `BITS`: colour depth, then one per extra
 channel. Channels are the frame's own decoded integer samples (the `enc` answer). The header values
@@ -51,7 +52,25 @@ def rep {α} (n : Nat) (p : P α) : P (List α) :=
 def blendInfo : P BlendInfo := do
   pure { mode := Mode.ofCode (← nat), alpha := (← nat), clamp := (← bool), source := (← nat) }
 
-def frame (img : ImgInfo) (bits : List Nat) (anim : Bool) : P (Frame Float32) := do
+def patchRef (nec : Nat) : P PatchRef := do
+  let ref ← nat
+  let x0 ← nat
+  let y0 ← nat
+  let w ← nat
+  let h ← nat
+  let nt ← nat
+  let targets ← rep nt (do
+    let x ← int
+    let y ← int
+    let infos ← rep (1 + nec) (do
+      let m ← nat
+      let a ← nat
+      let c ← bool
+      pure (PatchMode.ofCode m, a, c))
+    pure ({ x, y, infos } : PatchTarget))
+  pure { ref, x0, y0, w, h, targets }
+
+def frame (img : ImgInfo) (bits : List Nat) (anim : Bool) : P (FrameP Float32) := do
   kw "frame"
   let ty := FrameType.ofCode (← nat)
   let haveCrop ← bool
@@ -65,6 +84,14 @@ def frame (img : ImgInfo) (bits : List Nat) (anim : Bool) : P (Frame Float32) :=
   let isLast ← bool
   let saveRef ← nat
   let sbct ← bool
+  -- optional: `patches NP { REF X0 Y0 W H NT { X Y {MODE ALPHA CLAMP}*(1+NEC) }*NT }*NP`
+  let patches ← (do
+    match (← get) with
+    | "patches" :: _ => do
+      let _ ← tok
+      let np ← nat
+      rep np (patchRef img.ecAlphaAssoc.length)
+    | _ => pure [])
   let nch ← nat
   let chans ← rep nch (do
     let cw ← nat
@@ -77,9 +104,9 @@ def frame (img : ImgInfo) (bits : List Nat) (anim : Bool) : P (Frame Float32) :=
     let (cw, ch, d) := chans.getD c (0, 0, #[])
     let bi := if c < img.colorChannels then bits.getD 0 8 else bits.getD (1 + c - img.colorChannels) 8
     (planeOfInts bi cw ch d : Plane Float32)
-  pure { hdr := hdr.asParsed img anim, chans := planes }
+  pure { frame := { hdr := hdr.asParsed img anim, chans := planes }, patches }
 
-def image : P (ImgInfo × List (Frame Float32)) := do
+def image : P (ImgInfo × List (FrameP Float32)) := do
   let w ← nat
   let h ← nat
   let cc ← nat
@@ -104,12 +131,20 @@ def run (ws : List String) : String :=
   | "comp" :: rest =>
     match image.run rest with
     | some ((img, fs), []) =>
-      let ks := keyframes img fs
+      let ks := if fs.all (·.patches.isEmpty) then keyframes img (fs.map (·.frame)) else keyframesP img fs
+      s!"ok {ks.length} " ++ " ".intercalate (ks.map showCanvas)
+    | _ => "bad-op"
+  -- the patch-aware fold on any image (the check runs patch-free images through `comp` and `compp`)
+  | "compp" :: rest =>
+    match image.run rest with
+    | some ((img, fs), []) =>
+      let ks := keyframesP img fs
       s!"ok {ks.length} " ++ " ".intercalate (ks.map showCanvas)
     | _ => "bad-op"
   | "lazy" :: rest =>
     match (do let i ← image; kw "orders"; let k ← nat; let ks ← rep k nat; pure (i, ks)).run rest with
     | some (((img, fs), ks), []) =>
+      let fs := fs.map (·.frame)
       let C := mkCfg img id fs
       -- steal on the last colour channel only: stealing earlier makes every later channel re-render the
       -- base from scratch (as the Rust would), which is exponential in the depth of the reference chain
